@@ -271,7 +271,7 @@ def explore(ck, n, np, tmath, atm, use_model=True):
 
 
 def main():
-    ck = vlib.Check(PROP, pkg="numeric", props="Proofs.Props.C14", driver="drv_col", extra_targets=["drv_num"],
+    ck = vlib.Check(PROP, pkg="numeric", props="Proofs.Props.C14", driver="drv_col", extra_targets=[],
                     lemma_files=["Proofs/Lemmas/Trapz.lean"], model_files=["Model/Column.lean", "GenReal/Atmosphere.lean"],
                     trusted=["hand-written array-level model Model/Column.lean (trapezoid, IWV, CRH, pressure2height, linear interpolation), tied to the code by running it with Float on the same inputs (driver drv_col) each run",
                              "tools/py2lean for the scalar converters inside (validated by the C09 cross-run)",
